@@ -320,9 +320,12 @@ class InlineTranslator:
     def has_anonymous_vars(pred: Predicate, body: list[AST]) -> bool:
         """return true if pred inside stm uses anonymous variables"""
         for lit in body:
-            if is_predicate(lit) and Predicate(lit.atom.symbol.name, len(lit.atom.symbol.arguments)) == pred:
-                if any(map(lambda x: x == Variable(LOC, "_"), lit.atom.symbol.arguments)):
-                    return True
+            # also inside aggregates and conditional literals
+            for atom in collect_ast(lit, "SymbolicAtom"):
+                symbol = atom.symbol
+                if symbol.ast_type == ASTType.Function and Predicate(symbol.name, len(symbol.arguments)) == pred:
+                    if any(map(lambda x: x == Variable(LOC, "_"), symbol.arguments)):
+                        return True
         return False
 
     def is_single(self, stm: AST, rdp: RuleDependency) -> Optional[int]:
